@@ -151,7 +151,8 @@ def eqlFn : BinFn := { fn := "Eql", op := .eql, kinds := eqKinds, style := .viaV
   | .vv => eqPre ++ ["if xc == yc"]
   | .vc => eqPre ++ [nxy, "if yc", "not(k == xr.Bool && yv.Bool())"]
   | .cv => eqPre ++ [nxy, "not(yc)", "not(k == xr.Bool && xv.Bool())"] }
-def neqFn : BinFn := { fn := "Neq", op := .neq, kinds := eqKinds, style := .viaVar, pre := fun
+/-- `Neq` has no `case xr.Bool`: `x != y` on booleans is served by the generic `eqlneqMisc` -/
+def neqFn : BinFn := { fn := "Neq", op := .neq, kinds := numKinds ++ [.string], style := .viaVar, pre := fun
   | .vv => eqPre ++ ["if xc == yc"]
   | .vc => eqPre ++ [nxy, "if yc", "not(k == xr.Bool && !yv.Bool())"]
   | .cv => eqPre ++ [nxy, "not(yc)", "not(k == xr.Bool && !xv.Bool())"] }
@@ -236,6 +237,16 @@ def unaryNotTable : List Entry := [unEntry "UnaryNot" .not .bool]
 def exprZeroEntry (k : Kind) : Entry :=
   { fn := "exprZero", path := ["not(xe.Const())", "switch k", caseK k],
     arm := { binds := [xFun, xAssert k], ret := .kind k, named := true, body := [.expr xApp, .retNamed] } }
+
+/-- the `default:` arm for operands of non-basic kind (outside C01; kept so that the regenerated
+    table is compared in full) -/
+def exprZeroDefault : Entry :=
+  { fn := "exprZero", path := ["not(xe.Const())", "switch k", "default"],
+    arm := { binds := [("t", .sel (.var "xe") "Type"), xFun, ("zero", .call1 "xr.Zero" (.var "t")),
+                       ("x", .call2 "funAsX1" (.var "x") (.var "nil"))],
+             ret := .other "xr.Value", named := false, body := [.expr xApp, .ret (.var "zero")] } }
+
+def exprZeroTable : List Entry := allKinds.map exprZeroEntry ++ [exprZeroDefault]
 
 /-! ### power-of-two shortcuts -/
 
@@ -372,13 +383,24 @@ def intsRead (obj : String) (h : Hops) (k : Kind) : Arm :=
 
 def intsKinds : List Kind := [.bool] ++ numKinds
 
+/-- `default:` arm: variables of non-basic kind are returned as `reflect.Value` (outside C01) -/
+def valsReadX (obj : String) (h : Hops) : Arm :=
+  let idx : String × E := ("idx", .meth0 (.sel (.var obj) "Desc") "Index")
+  let rd : E := .index (.sel (hopsEnv h) "Vals") (.var "idx")
+  match h with
+  | .up => { binds := [idx, ("upn", .sel (.var obj) "Upn")], ret := .other "xr.Value", named := false,
+             body := [.assign (.var "env") (.meth1 (.var "env") "Up" (.var "upn")), .ret rd] }
+  | _ => { binds := [idx], ret := .other "xr.Value", named := false, body := [.ret rd] }
+
 def bindExprTable : List Entry :=
-  allKinds.map fun k => { fn := "Bind.expr", path := ["switch bind.Type.Kind()", caseK k], arm := valsRead "bind" .h0 k }
+  (allKinds.map fun k => { fn := "Bind.expr", path := ["switch bind.Type.Kind()", caseK k], arm := valsRead "bind" .h0 k })
+  ++ [{ fn := "Bind.expr", path := ["switch bind.Type.Kind()", "default"], arm := valsReadX "bind" .h0 }]
 def bindIntExprTable : List Entry :=
   intsKinds.map fun k => { fn := "Bind.intExpr", path := ["switch bind.Type.Kind()", caseK k], arm := intsRead "bind" .h0 k }
 def symbolExprTable : List Entry :=
   ([Hops.h1, .h2, .file, .top, .up].map fun h =>
-    allKinds.map fun k => { fn := "Symbol.expr", path := hopsCase true h ++ ["switch kind", caseK k], arm := valsRead "sym" h k }).flatten
+    (allKinds.map fun k => { fn := "Symbol.expr", path := hopsCase true h ++ ["switch kind", caseK k], arm := valsRead "sym" h k })
+    ++ [{ fn := "Symbol.expr", path := hopsCase true h ++ ["switch kind", "default"], arm := valsReadX "sym" h }]).flatten
 def symbolIntExprTable : List Entry :=
   ([Hops.h1, .h2, .file, .up].map fun h =>
     intsKinds.map fun k => { fn := "Symbol.intExpr", path := hopsCase false h ++ ["switch k", caseK k], arm := intsRead "sym" h k }).flatten
